@@ -167,8 +167,8 @@ func (req *Request) SetRequestURIBytes(requestURI []byte) {
 // RequestURI returns request's URI.
 func (req *Request) RequestURI() []byte {
 	if req.parsedURI {
-		requestURI := req.uri.RequestURI()
-		req.SetRequestURIBytes(requestURI)
+		// Only refresh the header: the parsed URI (scheme, host) stays valid.
+		req.Header.SetRequestURIBytes(req.uri.RequestURI())
 	}
 	return req.Header.RequestURI()
 }
